@@ -13,6 +13,7 @@ import (
 	"google.golang.org/protobuf/reflect/protoreflect"
 	"google.golang.org/protobuf/types/dynamicpb"
 
+	assetprofiletypes "github.com/elys-network/elys/x/assetprofile/types"
 	leveragelptypes "github.com/elys-network/elys/x/leveragelp/types"
 	mastercheftypes "github.com/elys-network/elys/x/masterchef/types"
 	perpetualtypes "github.com/elys-network/elys/x/perpetual/types"
@@ -434,4 +435,35 @@ func (a *AttackerAgent) ownerScopedOrders(s *Sim, attacker *Account) {
 			s.SendTx(attacker, "attack/owner/perp_order_update", &tradeshieldtypes.MsgUpdatePerpetualOrder{OwnerAddress: me, OrderId: o.OrderId, TriggerPrice: np})
 		}
 	}
+}
+
+// ---------------------------------------------------------------------------
+// SquatterAgent: asset-profile entries can be added by any account in this tree (MsgAddEntry
+// carries a creator, not an authority). The squatter registers, ahead of time, the share
+// denom of a pool that does not exist yet with committing disabled, so that the pool's
+// creation meets a failing commit inside its share-minting path (and every later join of
+// that pool would, too).
+type SquatterAgent struct {
+	baseAgent
+	done int
+}
+
+func (a *SquatterAgent) Step(s *Sim) {
+	r := a.rng
+	if a.done >= 2 || s.Height < 1 || r.Float64() >= s.Cfg.rate("squatter") {
+		return
+	}
+	ctx := s.Ctx()
+	next := uint64(1)
+	for _, p := range s.N0.App.AmmKeeper.GetAllPool(ctx) {
+		if p.PoolId >= next {
+			next = p.PoolId + 1
+		}
+	}
+	id := next + uint64(r.IntN(2))
+	u := s.user(r)
+	denom := fmt.Sprintf("amm/pool/%d", id)
+	s.SendTx(u, "squat/add_entry", &assetprofiletypes.MsgAddEntry{Creator: u.Addr.String(), BaseDenom: denom, Denom: denom, Decimals: 18, CommitEnabled: r.IntN(4) == 0, WithdrawEnabled: true})
+	a.done++
+	s.Stats.Probe("pool_share_denom_registered_ahead_of_pool_creation")
 }
